@@ -28,7 +28,9 @@ impl Element {
 
 impl Hash for Element {
     fn hash<H: core::hash::Hasher>(&self, state: &mut H) {
-        self.inner.hash(state);
+        // Equal elements (any projective scaling, either representative of the
+        // coset) must hash equally, so hash the canonical encoding.
+        self.vartime_compress().0.hash(state);
     }
 }
 
